@@ -436,6 +436,16 @@ impl Run {
 
     /// Classify, write replay files and evidence, print the verdict lines, return the exit code.
     pub fn finish(mut self) -> i32 {
+        // the wrapper runs the debug-assertions build of this binary first (quick bounds) and hands its
+        // summary line to the release run, which records it in the evidence
+        if let Ok(s) = std::env::var("ORCA_MC_DEBUG_RUN") {
+            if !s.is_empty() {
+                self.extra.insert("debug_assertions_build_run".into(), json!(s));
+            }
+        }
+        if cfg!(debug_assertions) {
+            self.assumptions.push("this run used the debug-assertions build (overflow checks on, library unoptimised)".into());
+        }
         let known = load_known_findings();
         let mut violations = 0;
         let mut known_lines = BTreeSet::new();
